@@ -28,7 +28,9 @@ MANIFEST = dict(
           "(files x 5-6 chosencases settings incl. the empty tag and settings matching nothing x 3-4 limits x 3 passes x preload on/off x "
           "uri/uripost/raw/json-lines/json-array: ~9.2k cells quick; thorough also under a hostile layout: ~163k). Each cell is executed on the real provider built by the "
           "registered plugin constructor; the observed deliveries, whether Acquire reported end of ammo, and the class of Run's result "
-          "(nil | error | cancel; a hang is confirmed twice under a watchdog >= 1000x the normal time) must equal the function — the same "
+          "(nil | error | cancel; a hang is confirmed twice under a watchdog >= 1000x the normal time) must equal the function; the ways "
+          "of writing 'no chosencases / headers / uris' (key absent, null, []) go through the real config.Decode and must not matter; files "
+          "without any ammo (empty, blank-only, header-only) must end with an error in both modes — the same "
           "function for preload on and off, which is what 'behaviour-preserving' means. Right level: the property is a finite function over a "
           "configuration matrix no test compares across the two paths."),
     note=("Bounded matrix (<= 3 items per file, limits {0,1,2,5}, passes {0,1,2}); larger files with random settings sampled. Trusted: renderers, "
@@ -38,8 +40,9 @@ MANIFEST = dict(
 
 def sig(row, inv):
     c = al.case_class(row)
-    return "fmt=%s style=%s mode=%s chosen=%s limit=%s passes=%s inv=%s outcome=%s src=%s" % (
-        c["fmt"], c["style"], c["mode"], c["chosen"], c["limit"], c["passes"], inv, row["obs"]["outcome"], c["src"])
+    return "fmt=%s style=%s mode=%s entries=%s chosen=%s rep=%s limit=%s passes=%s inv=%s outcome=%s src=%s" % (
+        c["fmt"], c["style"], c["mode"], c["entries"], c["chosen"], c["rep"], c["limit"], c["passes"], inv,
+        row["obs"]["outcome"], c["src"])
 
 
 def run(tier, v):
